@@ -88,7 +88,7 @@ def _find_lcas(
     c1: ObjectID,
     c2s: Sequence[ObjectID],
     lookup_stamp: Callable[[ObjectID], int],
-    min_stamp: int = 0,
+    min_stamp: int | None = None,
     shallows: set[ObjectID] | None = None,
 ) -> list[ObjectID]:
     """Find lowest common ancestors between commits.
@@ -98,7 +98,8 @@ def _find_lcas(
         c1: First commit
         c2s: List of second commits
         lookup_stamp: Function to get commit timestamp
-        min_stamp: Minimum timestamp to consider
+        min_stamp: Minimum timestamp to consider (None for no cut-off). Only
+          sound when no commit is older than its descendants.
         shallows: Set of shallow commits
 
     Returns:
@@ -197,7 +198,7 @@ def _find_lcas(
                     if shallows is not None and shallows:
                         continue
                     raise
-                if pdt < min_stamp:
+                if min_stamp is not None and pdt < min_stamp:
                     continue
                 cstates[pcmt] = pflags | cflags
                 wlst.add((pdt, pcmt))
@@ -208,6 +209,32 @@ def _find_lcas(
     for dt, cmt in cands:
         if not ((cstates[cmt] & _DNC) == _DNC) and (dt, cmt) not in results:
             results.append((dt, cmt))
+    if len(results) > 1:
+        # Commit times are not a topological order (equal or skewed clocks),
+        # so the walk above may stop before a candidate has been marked as an
+        # ancestor of another one. Like git's remove_redundant(), drop every
+        # candidate that is reachable from another candidate.
+        cand_ids = {cmt for dt, cmt in results}
+        redundant: set[ObjectID] = set()
+        for dt, cmt in results:
+            seen: set[ObjectID] = set()
+            todo = [cmt]
+            while todo:
+                cur = todo.pop()
+                try:
+                    cur_parents = lookup_parents(cur)
+                except KeyError:
+                    if shallows is not None and shallows:
+                        continue
+                    raise
+                for pcmt in cur_parents:
+                    if pcmt in seen:
+                        continue
+                    seen.add(pcmt)
+                    if pcmt in cand_ids:
+                        redundant.add(pcmt)
+                    todo.append(pcmt)
+        results = [(dt, cmt) for dt, cmt in results if cmt not in redundant]
     results.sort(key=lambda x: x[0])
     lcas = [cmt for dt, cmt in results]
     return lcas
@@ -339,7 +366,7 @@ def can_fast_forward(repo: "BaseRepo", c1: ObjectID, c2: ObjectID) -> bool:
 
     # Algorithm: Find the common ancestor
     try:
-        min_stamp = lookup_stamp(c1)
+        lookup_stamp(c1)
     except KeyError:
         # If c1 doesn't exist in the object store, we can't determine fast-forward
         # This can happen in shallow clones where c1 is a missing parent
@@ -355,7 +382,8 @@ def can_fast_forward(repo: "BaseRepo", c1: ObjectID, c2: ObjectID) -> bool:
         c1,
         [c2],
         lookup_stamp,
-        min_stamp=min_stamp,
+        # No commit-time cut-off: an ancestor may carry a newer time stamp
+        # than its descendants, and c1 may be reachable only through those.
         shallows=parents_provider.shallows,
     )
     return lcas == [c1]
